@@ -1,13 +1,13 @@
 \* design check (thorough): one suite, relevance shapes x TLS x modes x case sets
 CONSTANTS
   RunModes = {0, 1, 2}
-  CaseSets = {2, 3, 4, 7}
+  CaseSets = {2, 3, 4}
   MaxSuites = 1
   SNames = {1}
   SModes = {0, 1, 2}
   RelPs = {1, 2, 3, 6, 8, 10}
   RelVs = {1, 3, 5}
-  RelCs = {1, 2, 9}
+  RelCs = {1, 2}
   RelZs = {1, 2}
   Flags = {0, 1}
   Cvms = {0}
